@@ -497,6 +497,7 @@ class Ctx(object):
         self.nfresh = 0
         self.square_abs = engine.square_abs
         self.path_checks = []
+        self.input_pc = []      # preconditions + decisions only (no lemma instances)
         self.lemma_count = 0
 
     # ---- inputs -----------------------------------------------------------
@@ -568,6 +569,7 @@ class Ctx(object):
         if z3.is_true(st):
             return
         self.add(t)
+        self.input_pc.append(t)
         self.robust.append(t)
         if self.model is not None and not z3.is_true(self.model.eval(t, model_completion=True)):
             self.model = None
@@ -609,6 +611,7 @@ class Ctx(object):
         lit = t if d else z3.Not(t)
         self.trace.append(d)
         self.add(lit)
+        self.input_pc.append(lit)
         self.robust.append(_robust_literal(sb, d, lit, self.engine.margin))
         self.engine.stats.decisions += 1
 
@@ -794,6 +797,17 @@ class Ctx(object):
                 fr = numeral_fraction(val)
                 out[n] = [str(fr.numerator), str(fr.denominator)] if fr is not None else ['0', '1']
         return out
+
+    def input_model(self):
+        """A model of the preconditions and decisions alone (lemma instances left out: they
+        are true facts, so any input is consistent with them in reality).  Cheap; used for
+        tentative candidates that are replayed on the real code anyway."""
+        s = z3.Solver()
+        s.set('timeout', 5000)
+        for p in self.input_pc:
+            s.add(p)
+        self.engine.stats.queries += 1
+        return s.model() if s.check() == z3.sat else None
 
     def final_model(self, robust=True):
         if robust:
